@@ -355,3 +355,62 @@ PROPS['C09'] = dict(
                  'deadlock: a run that does not finish within 120 s is reported with a goroutine dump (nostuck); panics are recovered per call and logged as outcome "panic", which no call allows',
                  'errors allowed per call are listed in LinTrace.Allowed (Merge may answer "merge is in progress" or give up when its output would not fit)'],
 )
+
+DIRLOCK_CFG = '''SPECIFICATION Spec
+CONSTANTS
+  Openers = {Openers}
+  MaxSteps = {MaxSteps}
+  Bug = {}
+INVARIANTS AtMostOneOpen LockReleased HolderIsOpener
+CHECK_DEADLOCK FALSE
+'''
+def lock_sig(e):
+    if e.get('ev') == 'lk':
+        return ('lk', e.get('act'), e.get('res').split(':')[0], e.get('o', 0) % 10)
+    if e.get('ev') == 'race':
+        return ('race', len(e.get('res', [])), tuple(sorted(set(x.split(':')[0] for x in e.get('res', [])))))
+    if e.get('ev') == 'setdir':
+        return ('setdir', e.get('corrupt'))
+    return None
+
+PROPS['C16'] = dict(
+    level='model_checking',
+    mc=[dict(module='DirLock', name='MC_DirLock', cfg=DIRLOCK_CFG, consts={}, workers=8, timeout=1200, xmx='8g',
+             quick=dict(Openers='{"p1g0", "p1g1", "p2g0", "p3g0"}', MaxSteps=8), thorough=dict(Openers='{"p1g0", "p1g1", "p2g0", "p2g1", "p3g0", "p3g1"}', MaxSteps=10))],
+    traces=[dict(profile='dirlock', spec='DirLockTrace', enforce=['lock'], sig=lock_sig, deterministic=False,
+                 quick_seeds=1, thorough_seeds=2)],
+    rule='distinct (attempt kind, result, goroutine slot) tuples, distinct racing groups by (size, result set), directory damage/repair events; trivial = none',
+    assumptions=['openers are goroutine slots of three child processes of the driver, controlled over pipes; attempts are sequential except the barrier-released racing groups, whose internal order is not assumed (exactly one winner is demanded)',
+                 'the directory fingerprint (names, sizes, SHA-1 of contents, lock file excluded) is taken before and after every rejected Open',
+                 'if child processes cannot be started the driver records that and the trace is empty (reported in the evidence summary)'],
+)
+
+DT_CFG = '''SPECIFICATION Spec
+CONSTANTS
+  Keys = {Keys}
+  Elems = {1, 2}
+  Vals = {1, 2}
+  MaxCmds = {MaxCmds}
+  Bug = {}
+INVARIANTS RepliesAdmissible Refines SizeExact
+CHECK_DEADLOCK FALSE
+'''
+def types_sig(e):
+    if e.get('ev') == 'cmd':
+        return ('cmd', e.get('c'), e.get('err'), e.get('b'), e.get('vres', 0) != 0, e.get('exp'))
+    if e.get('ev') == 'restart':
+        return ('restart',)
+    return None
+
+PROPS['C19'] = dict(
+    level='model_checking',
+    mc=[dict(module='DataTypes', name='MC_DataTypes', cfg=DT_CFG, consts={}, workers=12, timeout=2400, xmx='16g',
+             quick=dict(Keys='{1}', MaxCmds=6), thorough=dict(Keys='{1}', MaxCmds=7))],
+    traces=[dict(profile='types', spec='DataTypesTrace', enforce=['types'], sig=types_sig,
+                 quick_seeds=1, thorough_seeds=2)],
+    rule='distinct (command, error, flag, value returned?, expired?) tuples per configuration; trivial = none',
+    assumptions=['left open by the property and therefore nondeterministic in DTSem: what a command of another type answers on a vacant key (expired String, emptied container), and Type / Get of such a key',
+                 'an absent field/member/element may be reported as (nil, nil) or as key-not-found (both are "absent")',
+                 'expiry is made deterministic with TTLs of -1 s and +1 h; scores are small integers',
+                 'each update is one batch on the engine: atomicity under crashes is C04\'s subject, not re-checked here'],
+)
